@@ -53,6 +53,67 @@ def structured(tier):
                             main = tuple([(R, 1)] * joins)
                             out.append(((k0, k1), (main,) + tuple(conss) + tuple(prods), None))
                             out.append(((k0, k1), (main,) + tuple(prods) + tuple(conss), None))
+    # F6 request/reply servers: a server fiber answers on channel 1 what it receives on channel 0; it may launch a helper of its own first
+    # (a child that finishes while the server is parked); requests come from main or from a separate sender, replies are collected by main
+    L = "l"
+    for k0 in ("sync", "buf1"):
+        for k1 in ("sync", "buf1"):
+            for rounds in (1, 2, 3):
+                for warm in (None, (), ((S, 2),), ((R, 2),)):
+                    serve = [(R, 0), (S, 1)] * rounds
+                    kinds = (k0, k1) + (("buf1",) if warm else ())
+                    # main sends the requests and collects the replies itself, in every order of its sends and receives
+                    # (optionally after waiting for the helper's message, so that the server is parked when its child finishes)
+                    fib = [tuple(([(L, 2)] if warm is not None else []) + serve)]
+                    if warm is not None:
+                        fib.append(tuple(warm))
+                    for pos in itertools.combinations(range(2 * rounds), rounds):
+                        arr = [(S, 0) if i in pos else (R, 1) for i in range(2 * rounds)]
+                        prefixes = [[]] + ([[(R, 2)]] if warm == ((S, 2),) else []) + ([[(S, 2)]] if warm == ((R, 2),) else [])
+                        for pre in prefixes:
+                            out.append((kinds, (tuple(pre + arr),) + tuple(fib), None))
+                    # a separate sender; main only collects
+                    sender = tuple([(S, 0)] * rounds)
+                    fib2 = [tuple(([(L, 3)] if warm is not None else []) + serve), sender]
+                    if warm is not None:
+                        fib2.append(tuple(warm))
+                    out.append((kinds, (tuple([(R, 1)] * rounds),) + tuple(fib2), None))
+                    out.append((kinds, (tuple([(R, 1)] * rounds),) + (fib2[1], fib2[0]) + tuple(fib2[2:]), None) if warm is None else (kinds, (tuple([(R, 1)] * rounds), tuple([(L, 3)] + serve), sender, tuple(warm)), None))
+    # F7 main is the server; its children: an optional helper that finishes at once (launched first or last), a client (launched by main
+    # or through a chain of 1-2 launching fibers) that sends the requests and, at some point between them, starts the collector of
+    # the replies directly or through a chain of 1-2 launching fibers
+    for k0 in ("sync", "buf1"):
+        for k1 in ("sync", "buf1"):
+            for rounds in (1, 2, 3):
+                serve = tuple([(R, 0), (S, 1)] * rounds)
+                coll = tuple([(R, 1)] * rounds)
+                for warm in (None, "first", "last"):
+                    for cdepth in (0, 1, 2):
+                        for depth in (0, 1, 2, 3):
+                            for at in range(rounds + 1):
+                                if depth == 0 and at > 0:
+                                    continue
+                                fibs = []          # index i in fibs is fiber i + 1
+                                if warm == "first":
+                                    fibs.append(())
+                                base = len(fibs) + 1
+                                # starters: base .. base+cdepth-1, client = base+cdepth
+                                client_id = base + cdepth
+                                for c in range(cdepth):
+                                    fibs.append(((L, base + c + 1),))
+                                nchain = max(depth - 1, 0)
+                                first_chain = client_id + 1
+                                collector = first_chain + nchain
+                                client = [(S, 0)] * rounds
+                                if depth > 0:
+                                    client.insert(at, (L, first_chain if nchain else collector))
+                                fibs.append(tuple(client))
+                                for c in range(nchain):
+                                    fibs.append(((L, first_chain + c + 1),))
+                                fibs.append(coll)
+                                if warm == "last":
+                                    fibs.append(())
+                                out.append(((k0, k1), (serve,) + tuple(fibs), None))
     # F4 ping-pong over two channels
     for k0 in ("sync", "buf1"):
         for k1 in ("sync", "buf1"):
@@ -136,7 +197,7 @@ class Net(Check):
     def __init__(self, pid):
         self.id = pid
         self.rule = ("all networks (channels, launched fibers, total operations): quick (1,1-4,<=5) (2,1-3,<=4); thorough (1,1-3,<=7) (1,4,<=5) (2,1,<=6) (2,2,<=5) (2,3,<=4) ("
-                     "symmetric fibers merged); structured families beyond that bound (producer/consumer pipelines with 0-4 sends / 0-4 receives joined through a done channel over capacities 0-3, fan-in, fan-out, ping-pong, 1-2 producers x 1-3 consumers all joined by main; up to 14 operations); plus the nested family (one operation inside a native iterator callback) "
+                     "symmetric fibers merged); structured families beyond that bound (producer/consumer pipelines with 0-4 sends / 0-4 receives joined through a done channel over capacities 0-3, fan-in, fan-out, ping-pong, 1-2 producers x 1-3 consumers all joined by main, request/reply servers with 1-3 rounds (as a fiber that may launch a helper first, with main's sends and receives in every order; as main itself with the collector started directly or through a chain of launching fibers); up to 14 operations); plus the nested family (one operation inside a native iterator callback) "
                      "for T<=3; plus fibers launched by fibers: every placement of every launch for (1,1-3,<=3) (2,2,<=2) (thorough <=4/3) and the nested-workers family (workers that launch a helper and share a data channel, joined through go/done channels, 3 channels, 3-4 fibers, up to 9 operations); per network: model explored over all schedules, VM trace replayed against it. non-trivial = network whose "
                      "model has >= 2 fibers interacting on a channel (some receive or blocked send)")
 
@@ -212,6 +273,16 @@ class Net(Check):
                 v.finding = "KF-C08-buffered-no-wake"
             elif detail in ("syncrecv", "mixed"):
                 v.finding = "KF-C08-parked-not-resumed"
+        if verdict == "safety" and detail.startswith("completed step not enabled in the model"):
+            # known finding: a synchronous sender is resumed although its value has not been taken yet (it is taken later in the same run)
+            import re as _re
+            m = _re.search(r'"(\d+) (\d+) s"', detail)
+            if m:
+                f, i = int(m.group(1)), int(m.group(2))
+                op, c = fibers[f][i] if f < len(fibers) and i < len(fibers[f]) else (None, None)
+                taken_later = any(l.endswith(" r v%d_%d" % (f, i)) for l in lines[lines.index("%d %d s" % (f, i)) + 1:]) if ("%d %d s" % (f, i)) in lines else False
+                if op == "s" and kinds[c] == "sync" and taken_later and cls == "ok":
+                    v.finding = "KF-C07-sync-sender-resumed-early"
         if verdict == "crash" and wrap is not None and cls == "panic" and "Internal Error" in (r.get("panic") or ""):
             v.finding = "KF-C08-nested-block"
         return v
